@@ -41,7 +41,7 @@ PROPS = {
         title="single-item operations behave as a key->item map",
         quick=[G("M_C01a"), T("M_NUMKEY"), T("M_HKEYS", observe="last"), T("M_UPSERT"), H(30)],
         thorough=[G("M_C01a"), G("M_C01b"), T("M_NUMKEY"), T("M_HKEYS", observe="last"), T("M_UPSERT"), H(600, 60)],
-        own=[parts("Outcome", "ErrClass", "Data", "Base", "Desc", "Catalog")],
+        own=[parts("Outcome", "ErrClass", "Data", "Base", "Others", "Desc", "Catalog")],
         design_ref="DESIGN.md 6 C01",
         level_text="Every (state, operation) transition of a bounded key->item model (3 keys, Put/Update/Delete/Get menus) is "
                    "enumerated by TLC, replayed on both real clients, and every answer plus the full post-state (GetItem of every "
@@ -216,7 +216,7 @@ PROPS["C13"] = dict(
     title="primary keys identify items faithfully and are enforced",
     quick=[G("M_KEYS", cfg="M_KEYS_S"), T("M_NUMKEY"), T("M_HKEYS", observe="last"), T("M_UPSERT"), H(20)],
     thorough=[G("M_KEYS", cfg="M_KEYS_S_t"), G("M_KEYS", cfg="M_KEYS_B"), T("M_NUMKEY"), T("M_HKEYS", observe="last"), T("M_UPSERT"), H(300, 60)],
-    own=[parts("Outcome", "ErrClass", "Data", "Base", "Desc", "NoCrash")],
+    own=[parts("Outcome", "ErrClass", "Data", "Base", "Others", "Desc", "NoCrash")],
     design_ref="DESIGN.md 6 C13",
     level_text="Hash+range keys (string and binary) over byte alphabets built to collide under separator-joined encodings, stored at most 2 "
                "(thorough: 3) at a time, every key written with an attribute naming it; Put / Get / Update / Delete(ALL_OLD) / Scan in every "
